@@ -107,8 +107,8 @@ MODELS = {
     'C11': {'quick': [model(4, 2, MaxChain=2, toks=(PLAIN, TOK_COMMA), programs=[[PDEL]] + [[op('delete_terminal', pos=i)] for i in (1, 2, 3, 4)]),
                       model(3, 2, MaxChain=2, toks=(PLAIN, TOK_TR1, TOK_TR2), labels=('X', 'NP-1', 'S=2-1', 'NP=2'), programs=[[o] for o in PTBS]),
                       model(3, 2, NMin=2, programs=[[o] for o in INS + SUB + FILT])],
-            'thorough': [model(5, 4, MaxChain=2, toks=(PLAIN, TOK_COMMA), programs=[[PDEL]] + [[op('delete_terminal', pos=i)] for i in (1, 2, 3, 4, 5)]),
-                         model(4, 3, MaxChain=2, toks=(PLAIN, TOK_TR1, TOK_TR2, TOK_TR3), labels=('X', 'NP-1', 'S=2-1', 'NP=2'), programs=[[o] for o in PTBS]),
+            'thorough': [model(5, 3, MaxChain=2, toks=(PLAIN, TOK_COMMA), programs=[[PDEL]] + [[op('delete_terminal', pos=i)] for i in (1, 2, 3, 4, 5)]),
+                         model(4, 2, MaxChain=2, toks=(PLAIN, TOK_TR1, TOK_TR2, TOK_TR3), labels=('X', 'NP-1', 'S=2-1', 'NP=2'), programs=[[o] for o in PTBS]),
                          model(3, 3, MaxChain=2, programs=[[o] for o in INS + SUB + FILT] + [[INS[3], SUB[5]], [SUB[2], INS[1]]])]},
     'C04': {'quick': [model(3, 2, MaxChain=2, toks=(PLAIN, TOK_COMMA, TOK_QUOTE), ops=ALLOPS, MaxOps=2),
                       PUNCT_DENSE,
